@@ -88,7 +88,10 @@ def run(res, f, tier):
     else:
         res.violation("C03|eq-not-structural", "PartialEq for Value is not the compiler-derived structural comparison",
                       {"impls": der})
+    import rewrite
+    rw_cov = rewrite.apply(res, f, "C03")
     res.coverage = {
+        "tree_rewrites": rw_cov,
         "obligations": obligations,
         "discharged": discharged,
         "checker_cmd": "python3 rules/check.py C03",
